@@ -472,12 +472,23 @@ refreshes that had been STARTED when it was made; a request is served once a lat
 structure RGhost where
   d : RDeb := {}
   reqs : List Nat := []
+  /- callers of refreshNow() (positions in `reqs`): listening on the debouncer's current broadcaster / on the
+     broadcaster the running refresh took / answered, with the ordinal of the refresh whose result they got -/
+  waiting : List Nat := []
+  cur : List Nat := []
+  answers : List (Nat × Nat) := []
 deriving DecidableEq, Repr
 
 def gstepWith (afterRefresh : RDeb → RDeb) (interval : Nat) (g : RGhost) (a : RAct) : RGhost :=
   let d' := rstepWith afterRefresh interval g.d a
   match a with
-  | .debounce | .refreshNow => { d := d', reqs := g.reqs ++ [g.d.refreshes] }
+  | .debounce => { g with d := d', reqs := g.reqs ++ [g.d.refreshes] }
+  | .refreshNow => { g with d := d', reqs := g.reqs ++ [g.d.refreshes], waiting := g.waiting ++ [g.reqs.length] }
+  | .start => if g.d.phase = .woken then { g with d := d', cur := g.waiting, waiting := [] } else { g with d := d' }
+  | .done =>
+    if g.d.phase = .running then
+      { g with d := d', answers := g.answers ++ g.cur.map (fun i => (i, g.d.refreshes)), cur := [] }
+    else { g with d := d' }
   | _ => { g with d := d' }
 
 def gstep (interval : Nat) (g : RGhost) (a : RAct) : RGhost := gstepWith id interval g a
@@ -488,6 +499,13 @@ def grunWith (afterRefresh : RDeb → RDeb) (interval : Nat) (g : RGhost) (as : 
 /-- the requests (positions in the history) after which no refresh has started -/
 def RGhost.lost (g : RGhost) : List Nat :=
   (List.range g.reqs.length).filter (fun i => decide (g.d.refreshes ≤ g.reqs.getD i 0))
+
+/-- the refreshNow() callers that were handed the result of a refresh that had started BEFORE their call -/
+def RGhost.early (g : RGhost) : List Nat :=
+  (g.answers.filter (fun e => decide (e.2 ≤ g.reqs.getD e.1 0))).map (·.1)
+
+/-- the refreshNow() callers still without an answer -/
+def RGhost.unanswered (g : RGhost) : List Nat := g.waiting ++ g.cur
 
 /-! the schedules the unit-level harness drives the real refreshDebouncer through (one hour interval, a refreshFn
 that blocks until released, the timer fired by hand = logical time): every harness op stands for a schedule
